@@ -36,6 +36,8 @@ struct RunState {
     int maxThreadsSeen = 0;
     std::set<std::string> kindPairsInverted, kindPairsNested;
     bool countersEachCall = false;
+    bool rebuildRecipe = false;        // move/rebuild/execute histories: the live-allocation balance is not evaluated (the harness keeps per-tree
+                                       // bookkeeping across rebuilds whose own allocations depend on what the process ran before)
     explicit RunState(Ctx& c, const Scenario& s) : ctx(c), sc(s) {}
 
     void drain(const std::string& origin) {
@@ -128,7 +130,7 @@ void doExecute(RunState& rs, IWorld& w, const HistOp& op, bool simulate, const s
     if (rs.maxThreadsSeen == 0) rs.maxThreadsSeen = rs.sc.threadsCtor;
     const bool kernelGrowth = simulate && ctx.sim.maxThreads > rs.maxThreadsSeen;
     if (simulate && ctx.sim.maxThreads > rs.maxThreadsSeen) rs.maxThreadsSeen = ctx.sim.maxThreads;
-    const bool balanceApplies = !kernelGrowth && (rs.sc.kernel.rfind("weight", 0) == 0 || rs.sc.kernel == "test");
+    const bool balanceApplies = !kernelGrowth && !rs.rebuildRecipe && (rs.sc.kernel.rfind("weight", 0) == 0 || rs.sc.kernel == "test");
     const long live0 = liveAllocations();
     setStage(simulate ? "task-execute" : "seq-execute");
     w.execute(op.flags);
@@ -513,6 +515,7 @@ void checkAfterRebuild(RunState& rs, IWorld& w, const std::map<std::pair<int, lo
 void recipeRebuild(RunState& rs) {
     Ctx& ctx = rs.ctx;
     const Scenario& sc = rs.sc;
+    rs.rebuildRecipe = true;
     setStage("build");
     ctx.sim.maxThreads = sc.threadsCtor;
     std::unique_ptr<IWorld> w = makeWorld(sc);
